@@ -24,9 +24,28 @@ import (
 )
 
 type obs struct {
-	outs [][]byte
-	ns   []int
-	errs []bool
+	outs   [][]byte
+	ns     []int
+	errs   []bool
+	panics []string // per rendering: the value of a panic out of Write ("" = none)
+}
+
+// auxPanicked: set by c16monitor; called when one of the auxiliary renderings a monitor makes (the same
+// event with one part alone and every field excluded) panics.  That rendering is itself a valid event
+// under a valid configuration, so the panic is reported with THAT configuration as the input.
+var auxPanicked func(cs *Case, msg string)
+
+// auxRender renders the event of cs once under the options o1 (struct-literal writer).
+func auxRender(cs *Case, o1 Opts) (string, bool) {
+	cs1 := &Case{Event: cs.Event, Opts: o1, ErrName: cs.ErrName}
+	ob := render(cs1, 1)
+	if ob.panics[0] != "" {
+		if auxPanicked != nil {
+			auxPanicked(cs1, ob.panics[0])
+		}
+		return "", false
+	}
+	return strings.TrimSuffix(string(ob.outs[0]), "\n"), true
 }
 
 func isReserved(k string) bool {
@@ -133,7 +152,7 @@ func matchSeq(tail string, seq []string, m map[string]interface{}, strict bool) 
 // implementation itself, rendering the same event with that part alone and
 // every field excluded (a metamorphic statement; the exact texts are checked
 // by the model correspondence, not here).
-func partsSection(cs *Case, m map[string]interface{}) string {
+func partsSection(cs *Case, m map[string]interface{}) (string, bool) {
 	o := cs.Opts
 	parts := []string{"time", "level", "caller", "message"}
 	if o.PartsOrderSet {
@@ -154,15 +173,17 @@ func partsSection(cs *Case, m map[string]interface{}) string {
 		if !ok {
 			o1 := o
 			o1.PartsOrderSet, o1.PartsOrder, o1.PartsExclude, o1.FieldsOrder, o1.FieldsExclude = true, []string{p}, nil, nil, all
-			ob := render(&Case{Event: cs.Event, Opts: o1}, 1)
-			t = strings.TrimSuffix(string(ob.outs[0]), "\n")
+			var fine bool
+			if t, fine = auxRender(cs, o1); !fine {
+				return "", false
+			}
 			texts[p] = t
 		}
 		if t != "" {
 			out = append(out, t)
 		}
 	}
-	return strings.Join(out, " ")
+	return strings.Join(out, " "), true
 }
 
 // lenient parse of a field section into (name, form) tokens over ALL keys of the event
@@ -240,6 +261,21 @@ func c16monitor(c *Ctx, cs *Case, ob obs) {
 	if err := d.Decode(&m); err != nil {
 		return // malformed stream: outside the property
 	}
+	auxPanicked = func(cs1 *Case, msg string) {
+		c.Violate(Violation{Key: "write-panics", Monitor: "succeeds", Desc: "ConsoleWriter.Write panicked on a valid event (the event of the case under test, rendered with one part alone and every field excluded): " + msg,
+			Case: cs1.json(), Observed: msg})
+	}
+	// a panic out of Write: "Write succeeds" fails, with this input
+	for i := range ob.outs {
+		if i < len(ob.panics) && ob.panics[i] != "" {
+			how := "literal"
+			if i < len(cs.Constructions) {
+				how = cs.Constructions[i]
+			}
+			viol("write-panics", "succeeds", fmt.Sprintf("ConsoleWriter.Write panicked on rendering %d of a valid event (writer built: %s): %s", i, how, ob.panics[i]), ob.panics[i], nil)
+			return
+		}
+	}
 	// determinism, length, error
 	for i := range ob.outs {
 		if ob.errs[i] {
@@ -315,8 +351,10 @@ func messagePart(cs *Case, m map[string]interface{}, viol func(key, mon, desc st
 	}
 	o1 := o
 	o1.PartsOrderSet, o1.PartsOrder, o1.PartsExclude, o1.FieldsOrder, o1.FieldsExclude = true, []string{"message"}, nil, nil, all
-	ob := render(&Case{Event: cs.Event, Opts: o1}, 1)
-	got := strings.TrimSuffix(string(ob.outs[0]), "\n")
+	got, fine := auxRender(cs, o1)
+	if !fine {
+		return
+	}
 	for _, f := range forms {
 		if strings.Contains(got, f) {
 			return
@@ -382,8 +420,10 @@ func timePart(cs *Case, m map[string]interface{}, viol func(key, mon, desc strin
 	}
 	o1 := o
 	o1.PartsOrderSet, o1.PartsOrder, o1.PartsExclude, o1.FieldsOrder, o1.FieldsExclude = true, []string{"time"}, nil, nil, all
-	ob := render(&Case{Event: cs.Event, Opts: o1}, 1)
-	got := strings.TrimSuffix(string(ob.outs[0]), "\n")
+	got, fine := auxRender(cs, o1)
+	if !fine {
+		return
+	}
 	if got != want {
 		viol("time-part-differs", "time-part-reference", fmt.Sprintf("timestamp %s under TimeFieldFormat %q, TimeFormat %q: the time part reads %q, the instant is %q", txt, o.TimeFieldFormat, layout, got, want), got, want)
 	}
@@ -404,7 +444,9 @@ func checkLine(cs *Case, m map[string]interface{}, line string, viol func(key, m
 		}
 	}
 	sort.Strings(want)
-	hasErr := inList("error", want)
+	// "the error field": the field under the name the logger gives an error (zerolog.ErrorFieldName, "error" unless renamed)
+	errName := cs.errName()
+	hasErr := inList(errName, want)
 	// candidate orders
 	var cands [][]string
 	without := func(xs []string, k string) []string {
@@ -418,7 +460,7 @@ func checkLine(cs *Case, m map[string]interface{}, line string, viol func(key, m
 	}
 	if len(o.FieldsOrder) == 0 {
 		if hasErr {
-			cands = append(cands, append([]string{"error"}, without(want, "error")...))
+			cands = append(cands, append([]string{errName}, without(want, errName)...))
 		} else {
 			cands = append(cands, want)
 		}
@@ -457,14 +499,17 @@ func checkLine(cs *Case, m map[string]interface{}, line string, viol func(key, m
 				cands = append(cands, base)
 				continue
 			}
-			rest := without(base, "error")
+			rest := without(base, errName)
 			for p := 0; p <= len(rest); p++ {
-				c := append(append(append([]string{}, rest[:p]...), "error"), rest[p:]...)
+				c := append(append(append([]string{}, rest[:p]...), errName), rest[p:]...)
 				cands = append(cands, c)
 			}
 		}
 	}
-	prefix := partsSection(cs, m)
+	prefix, fine := partsSection(cs, m)
+	if !fine {
+		return // a Write of one part alone panicked (reported with its own input)
+	}
 	sep := ""
 	if prefix != "" && len(want) > 0 {
 		sep = " "
@@ -588,7 +633,7 @@ func diagnose(cs *Case, m map[string]interface{}, tail string, want []string, ca
 	}
 	// all fields present once in an acceptable form: the order is wrong
 	if len(o.FieldsOrder) == 0 {
-		if inList("error", want) && (len(names) == 0 || names[0] != "error") {
+		if errName := cs.errName(); inList(errName, want) && (len(names) == 0 || names[0] != errName) {
 			viol("error-not-first", "order-default", "the error field is not the first field", qs(names), qs(cands[0]))
 			return
 		}
